@@ -82,7 +82,7 @@ def _prune_cache(keep):
     ds = [d for d in ds if os.path.basename(d) != keep]
     ds.sort(key=lambda d: os.path.getmtime(d), reverse=True)
     for d in ds[3:]:
-        if time.time() - os.path.getmtime(d) > 1800:
+        if time.time() - os.path.getmtime(d) > 7200:
             shutil.rmtree(d, ignore_errors=True)
 
 
@@ -93,6 +93,10 @@ class Build:
         self.hash = repo_hash()
         self.dir = os.path.join(CACHE, self.hash)
         os.makedirs(self.dir, exist_ok=True)
+        try:
+            os.utime(self.dir, None)   # mark as in use (cache pruning goes by mtime)
+        except OSError:
+            pass
         self.kddp = os.path.join(self.dir, "bin", "kddp")
         self.lib = os.path.join(self.dir, "lib")
 
@@ -220,6 +224,15 @@ def scratch():
 
 
 def pmap(fn, items, jobs=NCPU):
+    # on an oversubscribed machine (other checks / builders running) more workers only add thrashing
+    try:
+        load = os.getloadavg()[0]
+    except OSError:
+        load = 0.0
+    if load > 2 * NCPU:
+        jobs = max(2, min(jobs, 4))
+    elif load > NCPU:
+        jobs = max(2, min(jobs, 8))
     with ThreadPoolExecutor(max_workers=jobs) as ex:
         return list(ex.map(fn, items))
 
@@ -295,7 +308,9 @@ def props_audit(pid):
     ok = p.returncode == 0 and not bad
     # Print Assumptions output: either "Closed under the global context" or "Axioms:\n name : type ..."
     axioms = []
-    for m in re.finditer(r"^([A-Za-z0-9_.']+)\s*:", out, re.M):
+    for m in re.finditer(r"^([A-Za-z0-9_.']+)\s*:(?!=)", out, re.M):
+        if m.group(1) in ("Axioms", "Warning", "Error", "File"):
+            continue
         axioms.append(m.group(1))
     closed = out.count("Closed under the global context")
     foreign = [a for a in axioms if a.split(".")[-1] not in {x.split(".")[-1] for x in ALLOWED_AXIOMS}]
@@ -398,8 +413,11 @@ class Check:
 
     # -- Coq part common to every check
     def coq(self, extra_files=()):
-        ok, lg = coq_make()
+        ok, lg = True, ""
         stale = coq_stale(os.path.join(COQ, "Props", self.pid + ".v"))
+        if stale:   # something this property depends on changed (e.g. a regenerated Gen table): rebuild
+            ok, lg = coq_make()
+            stale = coq_stale(os.path.join(COQ, "Props", self.pid + ".v"))
         if stale:
             self.cov["coq_build"] = "FAILED"
             self.broken_obligation("coq build failed for files Props/%s.v depends on: %s" % (self.pid, stale), lg)
